@@ -17,6 +17,11 @@ CHECKS = {
         "text": "Exploration: accept(v) must load to a type-exactly equal value, reject must raise, unspecified is only counted; dumps must equal the documented outer form including container classes.",
         "note": "Trusted: the reference interpreter (vkit/refload.py, vkit/tspec.ref_dump) transcribed from specific-types-behavior.rst; Python constructors as the lax-coercion oracle.",
     },
+    "C05": {
+        "technique": "property-based fault injection: Hypothesis-generated nested types/values/model layouts; a generated antichain of fault sites of the reference dump is corrupted; the oracle compares the multiset of absolute trails of reported leaves with the planted set (ALL), membership (FIRST), absence of trails (DISABLE) and input_value reachability",
+        "text": "Exploration: nothing lost, duplicated or spurious in ALL mode; FIRST reports exactly one planted fault with its full trail; DISABLE attaches no trail; following each trail from the root reaches the reported input_value.",
+        "note": "Trusted: the harness's layout model (renames, name_style, nested paths, list layout, ExtraForbid) and fault-site enumeration; strict coercion only; a union is one leaf.",
+    },
     "C06": {
         "technique": "differential property-based testing: the three debug_trail programs (DISABLE/FIRST/ALL) of one generated specification run on fresh copies of one generated input (soup, near-valid, corrupted values for dumping)",
         "text": "Exploration: the modes must agree on success, on results, and the DISABLE/FIRST error must correspond (class, input value) to an error collected under ALL.",
